@@ -40,11 +40,17 @@ def kind_a(report, tier, seed):
     report.guarded("BucketOutput fragment triples", fragments.run_bucket, report, 4 if tier == "quick" else 5)
 
 
+def extra(report, fam, tier, seed):
+    from contracts import subgraph_order
+
+    report.guarded("subgraph order", subgraph_order.run, report, fam)
+
+
 def check(argv):
     return run(
-        "C01", argv, analyses=["prologue"], static_note="the prologue analysis reads the first two blocks of the function body (Extract dimensions / Unpack tensors)", classify=classify, kind_a=kind_a,
+        "C01", argv, extra=extra, analyses=["prologue"], static_note="the prologue analysis reads the first two blocks of the function body (Extract dimensions / Unpack tensors)", classify=classify, kind_a=kind_a,
         explanation="Kind A: contraction placement - every registration of desugar_expression (and the helper every_term_has_index) is symbolically executed from its real source for an arbitrary fixed index k and arbitrary index sets (set loops in arbitrary order): the result keeps index k open iff it is not to be summed, wraps it in exactly one Contract over a sub-tree all of whose additive terms mention k otherwise, with no capture; the Multiply case outside known finding F1. Kind A: exhaust_tensor* preserves the value with the exhausted operand read as 0 (all expressions); extract_context*/Context implement the documented sparsity rule and "
-                    "'sparse => value 0 when every compressed operand at the index is absent' (lemma). Kind A: the leaf arithmetic - every registration of identifiable to_ir (with the naming helpers) emits an expression whose machine value, in every state, is the specified combination of the operands' value cells (specs/to_ir_spec.id_val). Kind A: index_dimensions (every registration and the assignment-level function, dicts as z3 arrays, loops with invariants): each index of the assignment gets a (tensor, position) entry iff it occurs, and the entry points at a reference of that tensor which has the index at that position. Kind B: for every format (modes x orderings) to_iteration_graphs_tensor / to_identifiable give level l the index at position ordering[l] and mode modes[l], and yield exactly the level orders in which every level follows the levels it depends on. Kind B: TensorMethod.__call__ executed symbolically per problem: the output is allocated with the output format and, per target index, the size of the argument dimension carrying that index, and the kernel receives every tensor in its own slot (all argument values). Kind B: BucketOutput - the index expression emitted by ravel_indexes equals the row-major position of the bucket indexes (all dimensions and indexes, per number of bucket levels), so accumulation under a contraction lands in the cell of its coordinate. Kind B (per kernel, static): every <x>_dim is bound to a dimension of a tensor that carries index x there, every compressed level is unpacked from its own indices[l][0/1], vals from ->vals, parameters in the order of the problem. Kind C: every evaluate kernel of the family run on the reference machine with symbolic values; the decoded output is compared, as a "
+                    "'sparse => value 0 when every compressed operand at the index is absent' (lemma). Kind A: the leaf arithmetic - every registration of identifiable to_ir (with the naming helpers) emits an expression whose machine value, in every state, is the specified combination of the operands' value cells (specs/to_ir_spec.id_val). Kind A: index_dimensions (every registration and the assignment-level function, dicts as z3 arrays, loops with invariants): each index of the assignment gets a (tensor, position) entry iff it occurs, and the entry points at a reference of that tensor which has the index at that position. Kind B: for every format (modes x orderings) to_iteration_graphs_tensor / to_identifiable give level l the index at position ordering[l] and mode modes[l], and yield exactly the level orders in which every level follows the levels it depends on. Kind B: TensorMethod.__call__ executed symbolically per problem: the output is allocated with the output format and, per target index, the size of the argument dimension carrying that index, and the kernel receives every tensor in its own slot (all argument values). Kind B: BucketOutput - the index expression emitted by ravel_indexes equals the row-major position of the bucket indexes (all dimensions and indexes, per number of bucket levels), so accumulation under a contraction lands in the cell of its coordinate. Kind B (merge-loop order, per problem): generate_subgraphs lists every subgraph after every subgraph it is a simplification of. Kind B (per kernel, static): every <x>_dim is bound to a dimension of a tensor that carries index x there, every compressed level is unpacked from its own indices[l][0/1], vals from ->vals, parameters in the order of the problem. Kind C: every evaluate kernel of the family run on the reference machine with symbolic values; the decoded output is compared, as a "
                     "polynomial at every coordinate, with specs/algebra.meaning (sum of products, per-term summation, broadcasting), so one run covers all values.",
     )
 
